@@ -75,10 +75,10 @@ Definition mon (c : case) : bool :=
   | CPrem _ _ => true
   end.
 
-(* the premises of the theorems (spec/BuilderWFS.v) on an in-model program *)
+(* the premises of C01_builder_valid (spec/BuilderWFS.v: wf_prog; and the type table) on an in-model program *)
 Definition prem (c : case) : bool :=
   match c with
-  | CPrem tys p => wf_prog tys p
+  | CPrem tys p => wf_prog tys p && r_table tys
   | _ => true
   end.
 
